@@ -405,7 +405,14 @@ func (m *Multi) build() *Built {
 
 // real: a fresh transaction object (empty caches) with every spend's scriptSig / witness in place.
 func (b *Built) real() *btc.Tx {
-	tx := b.Tx.real()
+	tx := b.bare()
+	b.Tx.alloc(tx, "append")
+	return tx
+}
+
+// bare: the same object before AllocVerVars (TxVerVars nil).
+func (b *Built) bare() *btc.Tx {
+	tx := b.Tx.bare()
 	anyWit := false
 	for n, idx := range b.Idx {
 		tx.TxIn[idx].ScriptSig = unhx(b.Sig[n])
